@@ -171,6 +171,13 @@ impl Insert {
                 // TODO: Validate foreign keys.
             }
         }
+        // The file format has a single value for null and the empty string,
+        // so store (and compare keys using) null for empty strings.
+        let new_rows: Vec<Vec<Value>> = self
+            .new_rows
+            .into_iter()
+            .map(|values| values.into_iter().map(Value::empty_to_null).collect())
+            .collect();
         // Read in the rows from the table.
         let stream_name = table.stream_name();
         let key_indices = table.primary_key_indices();
@@ -196,7 +203,7 @@ impl Insert {
         // Check if any of the new rows already exist in the table (or conflict
         // with each other).
         let mut new_keys_set = HashSet::<Vec<Value>>::new();
-        for values in self.new_rows.iter() {
+        for values in new_rows.iter() {
             let keys: Vec<Value> = key_indices
                 .iter()
                 .map(|&index| values[index].clone())
@@ -217,7 +224,7 @@ impl Insert {
             new_keys_set.insert(keys);
         }
         // Insert the new rows into the table.
-        for values in self.new_rows.into_iter() {
+        for values in new_rows.into_iter() {
             let keys: Vec<Value> = key_indices
                 .iter()
                 .map(|&index| values[index].clone())
@@ -685,6 +692,13 @@ impl Update {
                 }
             }
         }
+        // The file format has a single value for null and the empty string,
+        // so store null for empty strings.
+        let updates: Vec<(String, Value)> = self
+            .updates
+            .into_iter()
+            .map(|(column_name, value)| (column_name, value.empty_to_null()))
+            .collect();
         // Read in the rows from the table.
         let stream_name = table.stream_name();
         let mut rows = if comp.exists(&stream_name) {
@@ -707,7 +721,7 @@ impl Update {
                 None => true,
             };
             if should_update {
-                for (column_name, value) in self.updates.iter() {
+                for (column_name, value) in updates.iter() {
                     let index =
                         table.index_for_column_name(column_name).unwrap();
                     let value_ref = &mut value_refs[index];
